@@ -18,7 +18,7 @@ type verifC02Case struct {
 }
 
 func TestVerifC02(t *testing.T) {
-	m := vk.NewMonitor("C02", "", "translation_validation",
+	m := vk.NewMonitor("C02", "main", "translation_validation",
 		"generated routing text compiled by the real builder; the real ring-slot rewrite and key/port/bitmap encoders produce the bytes loaded into tproxy.c's maps (native build under ASan+UBSan); "+
 			"route() vs RoutingMatcher.Match on boundary packets, LAN (MAC, no pname) and WAN (pname); distinct = (match type deciding in Go's view via shape of deciding rule) x family x LAN/WAN x port-53 class x ring-wrap")
 	m.SetFloor(200)
